@@ -208,8 +208,10 @@ pub struct IdxCtx<'a> {
     pub deferred_compaction: bool,
     /// ... followed later by an executed ordinary compaction
     pub normal_after_deferred: bool,
-    /// history contains a delete followed later by an executed ordinary compaction
+    /// history contains a delete (or update) followed later by an executed ordinary compaction
     pub compact_after_delete: bool,
+    /// the plan of the indexed scan contains a negated index query (`NOT([..]@idx)`)
+    pub plan_has_not: bool,
 }
 
 /// Narrow classification of an index-vs-reference deviation (see DESIGN §2.7 / §6). A deviation
@@ -261,6 +263,10 @@ pub fn classify_index_deviation(base_sig: &str, got: &BTreeSet<i64>, exp: &BTree
         for c in cols {
             if m.cols[c].ty == ColTy::Bool && indexed.iter().any(|(ic, _)| *ic == c) {
                 cands.insert(("bool", c));
+            }
+            // the plan shows a negated index query (e.g. `x >= 6 AND 6 >= x` is simplified to `x = 6`)
+            if cx.plan_has_not && indexed.iter().any(|(ic, _)| *ic == c) {
+                cands.insert((if m.cols[c].ty == ColTy::ListI32 { "array_has" } else { "eq" }, c));
             }
         }
         if !cands.is_empty() && extra.iter().all(|id| cands.iter().any(|(_, c)| m.rows[id][*c].is_null())) {
@@ -600,9 +606,10 @@ pub fn run(args: &Args) -> i32 {
                                                 d.map(|d| t.history[d + 1..].iter().any(|h| h.starts_with("compact(defer=false") && !h.contains("rejected") && !h.contains("-0+0"))).unwrap_or(false)
                                             },
                                             compact_after_delete: {
-                                                let d = t.history.iter().position(|h| h.starts_with("delete("));
-                                                d.map(|d| t.history[d + 1..].iter().any(|h| h.starts_with("compact(defer=false") && !h.contains("rejected") && !h.contains("-0+0"))).unwrap_or(false)
+                                                let d = t.history.iter().position(|h| h.starts_with("delete(") || h.starts_with("update("));
+                                                d.map(|d| t.history[d + 1..].iter().any(|h| h.starts_with("compact(") && !h.contains("rejected") && !h.contains("-0+0"))).unwrap_or(false)
                                             },
+                                            plan_has_not: plan.as_ref().map(|p| p.contains("NOT([")).unwrap_or(false),
                                         };
                                         classify_index_deviation(&v.sig, &got, &ids_exp, &pred, m, &cx).join("+")
                                     };
@@ -669,7 +676,7 @@ pub fn run(args: &Args) -> i32 {
                                     }
                                     let sig = if last_index_sig.as_ref().map(|(_, len)| *len == n as usize).unwrap_or(false) {
                                         last_index_sig.as_ref().unwrap().0.clone()
-                                    } else if t.stable_row_ids && stale_u > 0 && diff <= stale_u {
+                                    } else if t.stable_row_ids && !t.updated_ids.is_empty() && (diff <= stale_u || diff <= t.updated_ids.len()) && t.history.iter().any(|h| h.starts_with("optimize(")) {
                                         if n as usize > ids_exp.len() { "index-stale-entry-after-update-with-stable-row-ids-extra".to_string() } else { "index-stale-entry-after-update-with-stable-row-ids-missing".to_string() }
                                     } else {
                                         "index-count-rows-differs".to_string()
